@@ -53,7 +53,7 @@ CHECKS["C03"] = {
 CHECKS["C05"] = {
     "technique": "runtime monitoring: generated jump/handler programs in which every statement prints a unique trace token are run by the real code; the printed control-flow history, ERR values, variable values after RESUME and the final outcome are judged by the reference control semantics; context invariants walked at every statement boundary",
     "text": "Label/jump layouts in the main module: GOSUB nesting incl. RETURN label and RETURN without GOSUB, backward GOTOs, GOTO out of 1-3 nested FOR/WHILE/DO loops with distinct bounds and steps (landing inside an enclosing loop or outside), failing statements of every kind at first/middle/last position of FOR, WHILE, IF, ELSEIF and CASE blocks, inside GOSUB subroutines, inside a called SUB and inside a FUNCTION called in an expression, under every handler form (RESUME, RESUME NEXT, RESUME label, ON ERROR RESUME NEXT, ON ERROR GOTO 0, none) enabled and disabled in every order.",
-    "note": "Also generated: an ELSEIF condition, a non-first CASE expression or the NEXT increment failing, repaired by the handler and re-executed by RESUME; GOSUB/RETURN inside SUBs (RETURN without a GOSUB of its own, EXIT SUB with a GOSUB pending); RESUME label into a FOR body or SELECT CASE block. Also: RESUME / RESUME NEXT from inside the handler's own FOR and SELECT CASE blocks, handlers that fail (fatal), RETURN label across block depths. Not generated because the property does not define them or because of an open finding: RESUME NEXT after a failing block header, a handler left by GOTO, GOTO out of a GOSUB routine (KF-C15-2). RESUME label after an error raised one to three calls deep is generated (the calls are abandoned, the GOSUBs of the main module stay pending), with the label at the top level of the main module only (KF-C15-1).",
+    "note": "Also generated: an ELSEIF condition, a non-first CASE expression or the NEXT increment failing, repaired by the handler and re-executed by RESUME; GOSUB/RETURN inside SUBs (RETURN without a GOSUB of its own, EXIT SUB with a GOSUB pending); RESUME label into a FOR body or SELECT CASE block. Also: RESUME / RESUME NEXT from inside the handler's own FOR and SELECT CASE blocks, handlers that fail (fatal), RETURN label across block depths. Not generated because the property does not define them or because of an open finding: RESUME NEXT after a failing block header, a handler left by GOTO, GOTO out of a GOSUB routine (KF-C15-2). A GOSUB made one or two FOR loops deep whose routine returns at once or calls a SUB that leaves by EXIT SUB from its own GOSUB routine inside its own loop is generated. RESUME label after an error raised one to three calls deep is generated (the calls are abandoned, the GOSUBs of the main module stay pending), with the label at the top level of the main module only (KF-C15-1).",
     "design": "DESIGN.md section 2 C05",
 }
 CHECKS["C06"] = {
@@ -89,7 +89,7 @@ CHECKS["C16"] = {
 CHECKS["C12"] = {
     "technique": "runtime monitoring: (a) run-time monitor for Type mismatch (13) and wrong-kind assertions on accepted programs, (b) metamorphic renaming of user identifiers, (c) enumerated single ill-typing edits with a known expected error family and location, all against the real checker and VM",
     "text": "(a) accepted programs of the whole-repertoire workload run under the monitor; (b) each program (accepted or rejected) consistently renamed, verdict must not change; (c) typed generator programs with a string literal put, one at a time, into every expression position that requires a number (operands, parentheses, call arguments, array subscripts, CASE expressions, FOR bounds, conditions, assignment sources), plus missing label, duplicate definition, NEXT for the wrong counter, wrong argument count and by-reference type edits: each must be rejected with an error of the matching family at the row of the edited statement.",
-    "note": "Also: the right and the wrong type at every argument position of 17 built-in calls; (d) the same program with its SUB/FUNCTION texts before and after the module-level code must get the same verdict, and a GOTO from a procedure to a label of the module must be rejected in both layouts. (e) one ill-formed statement (GOTO / GOSUB / RETURN / ON ERROR GOTO / RESUME to a missing label, a SUB or FUNCTION call with the wrong argument count in several expression positions, a by-reference argument of the wrong type, a second DIM / CONST / label of the same name, NEXT for the wrong counter) put after a simple statement chosen anywhere in the program - any block nesting, main module and procedure bodies - must be rejected with the matching family at the row of the new statement. Error families are coarse sets fixed in the oracle table; positions are checked by row.",
+    "note": "Also: the right and the wrong type at every argument position of 17 built-in calls; (d) the same program with its SUB/FUNCTION texts before and after the module-level code must get the same verdict, and a GOTO from a procedure to a label of the module must be rejected in both layouts. (e) one ill-formed statement (GOTO / GOSUB / RETURN / ON ERROR GOTO / RESUME to a missing label, a SUB or FUNCTION call with the wrong argument count in several expression positions, a by-reference argument of the wrong type, a second DIM / CONST / label of the same name, NEXT for the wrong counter, a number where a string is needed next to fixed-length strings, string variables and literals) put after a simple statement chosen anywhere in the program - any block nesting, main module and procedure bodies - must be rejected with the matching family at the row of the new statement. Error families are coarse sets fixed in the oracle table; positions are checked by row.",
     "design": "DESIGN.md section 2 C12",
 }
 CHECKS["C19"] = {
@@ -130,7 +130,7 @@ CHECKS["C11"] = {
 CHECKS["C13"] = {
     "technique": "runtime monitoring: generated programs assign a fresh value through every spelling of a name and print every spelling in every scope; the printed values (which spellings share a variable) and the checker's accept/reject verdict are judged by an executable model of the name-resolution rules",
     "text": "Programs with 0-3 DEFtype statements (random letter ranges, also in the middle of the main module), global DIM x AS type, DIM SHARED (extended and compact), CONST, bare DIM, 0-2 SUBs with bare / suffixed / extended parameters, local DIM AS and local CONST; ten base names that share first letters, each use in random letter case with no suffix or one of the five suffixes; every scope prints all 60 spellings, the main module again after the calls; a quarter of the programs carry one use that must be rejected (other suffix on an extended name, second DIM of a name, assignment to a CONST).",
-    "note": "Trusts the resolution model in rv/checks/c13.py (from the property statement and the README). Function-result names: half of the programs define one or two FUNCTIONs with a bare name and a bare parameter (typed by the DEFtype table), called bare or with the matching suffix and assigned inside under either spelling. Not generated: a variable or parameter with the base name of a function, a foreign suffix on a CONST or function name, DEFtype after the first SUB, arrays and records.",
+    "note": "Trusts the resolution model in rv/checks/c13.py (from the property statement and the README). Function-result names: half of the programs define one or two FUNCTIONs with a bare name and a bare parameter (typed by the DEFtype table), called bare or with the matching suffix and assigned inside under either spelling. DEFtype statements between the procedures type the FUNCTIONs after them and nothing before (bare main-module variables with the same first letters are printed). Not generated: a variable or parameter with the base name of a function, a foreign suffix on a CONST or function name, DEFtype after the first SUB, arrays and records.",
     "design": "DESIGN.md section 2 C13",
 }
 NOT_BUILT_REASON = "check not built yet in this round (design in DESIGN.md section 2); nothing is claimed for it"
